@@ -566,6 +566,7 @@ fn run<T: QApi>(q: &mut T, op: &Value, cx: &mut Ctx, ev: &mut Map<String, Value>
                 }
             };
             ev.insert("ret".into(), json!(ret));
+            ev.insert("cap_after".into(), json!(q.capacity().min(1 << 30)));
         }
         "ser" => {
             CMPS.with(|c| c.set(0));
@@ -605,11 +606,19 @@ fn run<T: QApi>(q: &mut T, op: &Value, cx: &mut Ctx, ev: &mut Map<String, Value>
             ev.insert("n0".into(), json!(q.len()));
             ev.insert("ref".into(), json!(unfueled(|| q.ref_order(it))));
             cx.scratch.clear();
+            // provided-method calls: the same call sequence on the stepping replica, over a clone taken beforehand
+            let mut replica = vec![];
+            if calls.iter().any(|c| c.0 == 20) {
+                let mut c2 = unfueled(|| q.clone());
+                let pa = format!("plain:{}", adaptor);
+                c2.with_iter(it, &pa, k, false, &mut |p| proto_calls(p, &calls, &mut replica));
+            }
             CMPS.with(|c| c.set(0));
             {
                 let scratch = &mut *cx.scratch;
                 q.with_iter(it, adaptor, k, forget, &mut |p| proto_calls(p, &calls, scratch));
             }
+            merge_wants(&mut cx.scratch, &replica);
             ev.insert("res".into(), Value::Array(cx.scratch.clone()));
         }
         _ => panic!("harness: unknown op {}", name),
@@ -627,7 +636,7 @@ pub fn calls_of(op: &Value) -> Vec<(i64, usize)> {
 }
 
 /// call codes: 0 next, 1 next_back, 2 len, 3 size_hint, 4 nth(k), 5 nth_back(k), 6 last (consumes), 7 count (consumes),
-/// 8 fold, 9 rfold, 10 for_each (consume; logged element by element)
+/// 8 fold, 9 rfold, 10 for_each (consume; logged element by element), [20, m] provided method q::METHODS[m]
 pub fn proto_calls(p: &mut dyn Proto, calls: &[(i64, usize)], out: &mut Vec<Value>) {
     let yv = |y: Option<Y>| match y {
         None => json!([]),
@@ -678,6 +687,12 @@ pub fn proto_calls(p: &mut dyn Proto, calls: &[(i64, usize)], out: &mut Vec<Valu
                     }
                 }
             }
+            // a provided method (q::METHODS[k]) run on the iterator itself; `want` (what std's default implementation
+            // yields on the stepping replica) is filled in by the caller
+            20 => {
+                let got = p.provided(*k);
+                if got == json!("na") { json!({"c": 20, "st": "na", "k": k}) } else { json!({"c": 20, "st": "done", "k": k, "m": crate::q::METHODS.get(*k).copied().unwrap_or("?"), "got": got}) }
+            }
             _ => panic!("harness: unknown call code {}", c),
         };
         if matches!(c, 8 | 9 | 10) {
@@ -685,6 +700,22 @@ pub fn proto_calls(p: &mut dyn Proto, calls: &[(i64, usize)], out: &mut Vec<Valu
             continue;
         }
         *out.last_mut().unwrap() = rec;
+    }
+}
+
+/// copy the results of the provided-method calls of the replica run into the records of the real run
+pub fn merge_wants(res: &mut [Value], replica: &[Value]) {
+    let wants: Vec<&Value> = replica.iter().filter(|r| r.get("c").and_then(|c| c.as_i64()) == Some(20)).collect();
+    let mut j = 0;
+    for r in res.iter_mut() {
+        if r.get("c").and_then(|c| c.as_i64()) == Some(20) {
+            if let (Some(w), Some(o)) = (wants.get(j).and_then(|w| w.get("got")), r.as_object_mut()) {
+                if o.contains_key("got") {
+                    o.insert("want".into(), w.clone());
+                }
+            }
+            j += 1;
+        }
     }
 }
 
@@ -1074,10 +1105,17 @@ impl<W: Write> Interp<W> {
                 ev.insert("n0".into(), json!(on!(q, x => x.len())));
                 ev.insert("ref".into(), json!(on!(q, x => x.ref_order(&it))));
                 let mut scratch = vec![];
+                let mut replica = vec![];
+                if calls.iter().any(|c| c.0 == 20) {
+                    let c2 = q.clone();
+                    let pa = format!("plain:{}", adaptor);
+                    on!(c2, x => x.with_into_iter(&it, &pa, k, &mut |p| proto_calls(p, &calls, &mut replica)));
+                }
                 let r = catch_unwind(AssertUnwindSafe(|| {
                     let c = q.clone();
                     on!(c, x => x.with_into_iter(&it, &adaptor, k, &mut |p| proto_calls(p, &calls, &mut scratch)))
                 }));
+                merge_wants(&mut scratch, &replica);
                 ev.insert("res".into(), Value::Array(scratch));
                 if let Err(e) = r {
                     panicked = Some(msg_of(e));
